@@ -477,6 +477,129 @@ theorem list_wrong_ncat_always_fails (cats : List Cat) (m : Nat) (hm : m ≠ cat
     rw [ih]
     rfl
 
+/-! ### phase 2: sessions — two forecasts over the same catalog objects -/
+
+def demoShared : List Cat :=
+  [{ id := some 0, events := [{ keep := true, cell := 0 }, { keep := false, cell := 1 }] }, { id := some 1, events := [] },
+   { id := some 2, events := [{ keep := true, cell := 3 }, { keep := true, cell := 3 }] }]
+
+/-- an in-memory forecast stays one, with the same filter switch, through every operation -/
+theorem step_list_fields (st : St) (op : Op) (hg : st.isGen = false) :
+    (step st op).1.isGen = false ∧ (step st op).1.applyFilters = st.applyFilters := by
+  have hP : ∀ s : St, s.isGen = false → ∀ (f : List Cat → Out),
+      (match fullPass s with | some (s', cats) => (s', f cats) | none => (s, Out.error)).1.isGen = false ∧
+      (match fullPass s with | some (s', cats) => (s', f cats) | none => (s, Out.error)).1.applyFilters
+        = s.applyFilters := by
+    intro s hs f
+    cases h : fullPass s with
+    | none => exact ⟨hs, rfl⟩
+    | some p => obtain ⟨s', cats⟩ := p; exact fullPass_list_fields s s' cats hs h
+  have hR : ∀ (f : List Nat → List Nat), (withRates st f).1.isGen = false ∧
+      (withRates st f).1.applyFilters = st.applyFilters := by
+    intro f
+    unfold withRates
+    cases h : getExpectedRates st with
+    | none => exact ⟨hg, rfl⟩
+    | some p => obtain ⟨s', d, n⟩ := p; exact getExpectedRates_list_fields st s' (d, n) hg h
+  cases op with
+  | fullPass => exact hP st hg _
+  | numberTest => exact hP st hg _
+  | getEventCounts =>
+    simp only [step]
+    cases h : getEventCounts st with
+    | none => exact ⟨hg, rfl⟩
+    | some p => obtain ⟨s', l⟩ := p; exact getEventCounts_list_fields st s' l hg h
+  | getExpectedRates => exact hR _
+  | spatialCounts => exact hR _
+  | magnitudeCounts => exact hR _
+  | spatialTest | magnitudeTest | pseudolikelihoodTest =>
+    simp only [step]
+    cases h : getExpectedRates st with
+    | none => exact ⟨hg, rfl⟩
+    | some p =>
+      obtain ⟨s', r⟩ := p
+      have h1 := getExpectedRates_list_fields st s' r hg h
+      have h2 := hP s' h1.1 Out.cats
+      exact ⟨h2.1, h2.2.trans h1.2⟩
+  | resampledMagnitudeTest | mllMagnitudeTest =>
+    simp only [step]
+    cases h : getExpectedRates st with
+    | none => exact ⟨hg, rfl⟩
+    | some p =>
+      obtain ⟨s', r⟩ := p
+      have h1 := getExpectedRates_list_fields st s' r hg h
+      dsimp only
+      cases h' : fullPass s' with
+      | none => exact ⟨h1.1, h1.2⟩
+      | some q =>
+        obtain ⟨s'', c1⟩ := q
+        have h2 := fullPass_list_fields s' s'' c1 h1.1 h'
+        dsimp only
+        cases h'' : fullPass s'' with
+        | none => exact ⟨h2.1, h2.2.trans h1.2⟩
+        | some q' =>
+          obtain ⟨s''', c2⟩ := q'
+          have h3 := fullPass_list_fields s'' s''' c2 h2.1 h''
+          exact ⟨h3.1, h3.2.trans (h2.2.trans h1.2)⟩
+
+/-- the invariant only needs the catalogs up to filtering: any list that becomes `filtered` under the forecast's
+    (idempotent) filters may stand in for them — e.g. the same objects after ANOTHER forecast has filtered them -/
+theorem inv_catalogs_replaced {file : List Cat} {af0 : Bool} {nBins nMag : Nat} {st : St}
+    (hinv : Inv file af0 nBins nMag st) (hg : st.isGen = false) (l : List Cat)
+    (hl : l.map (fstep st.applyFilters) = filtered file af0) :
+    Inv file af0 nBins nMag { st with catalogs := l } := by
+  obtain ⟨hfile, hnb, hnm, hidx, hmode, hec, her⟩ := hinv
+  refine ⟨hfile, hnb, hnm, hidx, ?_, hec, her⟩
+  rcases hmode with ⟨_, hn, hcat⟩ | ⟨hg', _⟩
+  · left
+    refine ⟨hg, ?_, hl⟩
+    have h1 := congrArg List.length hcat
+    have h2 := congrArg List.length hl
+    simp only [List.length_map] at h1 h2
+    simp only [hn, h1, h2]
+  · rw [hg] at hg'; cases hg'
+
+/-- **sessions on shared catalog objects**: two in-memory forecasts with the same filter switch built over the same
+    catalog objects, their operations interleaved in any order and at any length — every operation of either forecast
+    still gives the specification's answer (in-place filtering by the one is invisible to the other because the
+    filters are idempotent) -/
+theorem shared_session_refines_spec {file : List Cat} {af0 : Bool} {nBins nMag : Nat} (hne : file ≠ []) :
+    ∀ (ops : List (Bool × Op)) (a b : St), Inv file af0 nBins nMag a → Inv file af0 nBins nMag b →
+      a.isGen = false → b.isGen = false → a.applyFilters = b.applyFilters →
+      runShared a b ops = ops.map (fun wo => (specOut (filtered file af0) nBins nMag wo.2, some file.length))
+  | [], _, _, _, _, _, _, _ => rfl
+  | (false, op) :: rest, a, b, ha, hb, hga, hgb, haf => by
+    obtain ⟨hout, hi', hn'⟩ := step_spec ha hne op
+    obtain ⟨hg', haf'⟩ := step_list_fields a op hga
+    have hcat : (step a op).1.catalogs.map (fstep b.applyFilters) = filtered file af0 := by
+      rcases hi'.hmode with ⟨_, _, hc⟩ | ⟨hgen, _⟩
+      · rw [← haf, ← haf']; exact hc
+      · rw [hg'] at hgen; cases hgen
+    have hb' := inv_catalogs_replaced hb hgb _ hcat
+    have ih := shared_session_refines_spec hne rest (step a op).1 { b with catalogs := (step a op).1.catalogs }
+      hi' hb' hg' hgb (haf'.trans haf)
+    simp only [runShared, List.map_cons]
+    rw [ih, hout, hn']
+  | (true, op) :: rest, a, b, ha, hb, hga, hgb, haf => by
+    obtain ⟨hout, hi', hn'⟩ := step_spec hb hne op
+    obtain ⟨hg', haf'⟩ := step_list_fields b op hgb
+    have hcat : (step b op).1.catalogs.map (fstep a.applyFilters) = filtered file af0 := by
+      rcases hi'.hmode with ⟨_, _, hc⟩ | ⟨hgen, _⟩
+      · rw [haf, ← haf']; exact hc
+      · rw [hg'] at hgen; cases hgen
+    have ha' := inv_catalogs_replaced ha hga _ hcat
+    have ih := shared_session_refines_spec hne rest { a with catalogs := (step b op).1.catalogs } (step b op).1
+      ha' hi' hga hg' (haf.trans haf'.symm)
+    simp only [runShared, List.map_cons]
+    rw [ih, hout, hn']
+
+/-- non-vacuity: two list forecasts over `demo`, filters on, interleaved -/
+example : runShared (initList demoShared none true 4 2) (initList demoShared none true 4 2)
+      [(false, .getExpectedRates), (true, .fullPass), (false, .fullPass), (true, .mllMagnitudeTest), (false, .getEventCounts)]
+    = [(false, Op.getExpectedRates), (true, .fullPass), (false, .fullPass), (true, .mllMagnitudeTest),
+       (false, .getEventCounts)].map
+        (fun wo => (specOut (filtered demoShared true) 4 2 wo.2, some 3)) := by decide +kernel
+
 /-! ### round 4: the known finding D27 in general — what exactly an aborted pass leaves behind -/
 
 private theorem split_at {α} (l : List α) (k : Nat) (hk0 : 0 < k) (hk : k ≤ l.length) :
